@@ -149,6 +149,15 @@ def check_loads(case, gen, pkg, feats) -> List[Violation]:
             pyast.parse(p.read_text())
         except SyntaxError as e:
             v("valid-python", "%s: %s" % (p.name, e))
+    # files_to_include: each listed file is in the package under its own name with its own bytes (whatever its suffix)
+    for inc in (gen.config.get("files_to_include") or []):
+        src = Path(inc) if os.path.isabs(inc) else pkg_dir.parent / inc
+        if src.is_file() and not case.get("_included_edited"):
+            dst = pkg_dir / src.name
+            same = dst.is_file() and dst.read_bytes().endswith(src.read_bytes()) and all(
+                (not l.strip()) or l.lstrip().startswith("#") for l in dst.read_bytes()[:len(dst.read_bytes()) - len(src.read_bytes())].decode("utf-8", "replace").splitlines())
+            if not same:  # an include_comments header above the copy is the documented addition
+                v("included-files-copied", "files_to_include entry %s: %s in the package" % (inc, "differs from its copy" if dst.is_file() else "is missing (package has %r)" % written))
     for name, err in import_all_modules(pkg, pkg_dir):
         v("module-imports", "%s: %s" % (name, err))
     for cls in models_of(pkg, pkg_dir):
@@ -688,4 +697,8 @@ def with_mixins(case: Dict[str, Any], i: int) -> None:
     case["extra_files"] = {"mixins_mod.py": "class MixinA:\n    pass\n\n\nclass MixinB:\n    pass\n"}
     case["cfg"] = dict(case["cfg"])
     case["cfg"]["files_to_include"] = ["mixins_mod.py"]
+    if i % 8 == 5:
+        # included files need not be Python: a PEP 561 marker, a data file next to the code
+        case["extra_files"].update({"py.typed": "", "extra/schema_notes.graphql": "# kept for reference\ntype Note { text: String }\n"})
+        case["cfg"]["files_to_include"] += ["py.typed", "extra/schema_notes.graphql"]
     case["dirty"] = sorted(set(case.get("dirty", [])) | {"mixin.on_fragment_def"})
